@@ -214,7 +214,7 @@ impl Prop for C09Prop {
         "C09"
     }
     fn rule(&self) -> &'static str {
-        "0-4 argument values (adversarial pool: spaces, quotes, backslashes, '#', ${..}, %{..}, CR/LF, tabs and other Unicode white space, '=', multi-byte, empty; half of the cases filtered into the proved-safe class) held in variables a0.. (plus optional x, y), handed to a capture command directly (`cap ${a0} …`, the oracle) and through one of not / if / elseif / while / alias / alias with a stored argument / eval in the real SDK context. Relation (model-free): the wrapped invocation received exactly the direct invocation's arguments. Model comparison on every case: domain flag, what the wrapped call receives (Reser.roundTripFull), what the direct call receives. Two more streams: (after-history) the same comparison after forty alias / eval invocations whose rebuilt line does not parse, in the same run; (branch) programs in which a user function `p` (body `q = set ${o}`, ended by falling off `end`, a bare `return` or `return ${r}`; o, r from a pool of truthy / falsy words incl. trailing LF / CRLF and blanks) is called directly (`d = p x "y z"`) and as the condition of if / elseif / not / while or inside another function used as condition: the goto-machine model (request c04raw) and the real interpreter run the same text, and the model-free relation demands that the recorded branch is the one the direct call's output determines. Fixed cases: every value of length <= 3 (thorough: 4) over the alphabet a x space \" \\ # $ % { } LF TAB = in first and in later argument position through `not`, plus the finding witnesses through every wrapper. Non-trivial = some value is empty or has a non-alphanumeric character; distinct = distinct request."
+        "0-4 argument values (adversarial pool: spaces, quotes, backslashes, '#', ${..}, %{..}, CR/LF, tabs and other Unicode white space, '=', multi-byte, empty; half of the cases filtered into the proved-safe class) held in variables a0.. (plus optional x, y), handed to a capture command directly (`cap ${a0} …`, the oracle) and through one of not / if / elseif / while / alias / alias with a stored argument / eval in the real SDK context. Relation (model-free): the wrapped invocation received exactly the direct invocation's arguments. Model comparison on every case: domain flag, what the wrapped call receives (Reser.roundTripFull), what the direct call receives. Two more streams: (after-history) the same comparison after forty alias / eval invocations whose rebuilt line does not parse, in the same run; (branch) programs in which a user function `p` (body `q = set ${o}`, ended by falling off `end`, a bare `return` or `return ${r}`; o, r from a pool of truthy / falsy words incl. trailing LF / CRLF and blanks) is called directly (`d = p x 'y z'`) and as the condition of if / elseif / not / while or inside another function used as condition: the goto-machine model (request c04raw) and the real interpreter run the same text, and the model-free relation demands that the recorded branch is the one the direct call's output determines. Fixed cases: every value of length <= 3 (thorough: 4) over the alphabet a x space \" \\ # $ % { } LF TAB = in first and in later argument position through `not`, plus the finding witnesses through every wrapper. Non-trivial = some value is empty or has a non-alphanumeric character; distinct = distinct request."
     }
     fn budget(&self, tier: Tier) -> usize {
         match tier {
